@@ -32,7 +32,7 @@ BOUNDS = {
     "thorough": {"payload bytes n": "1..48", "address shapes": 3, "annotations": "<= 6 chars"},
 }
 OUTSIDE = ["the writer side of the packet log is C code (logging %-formatting, dt.fromtimestamp(dtm.timestamp())): the log line is composed in the harness the way _Logger.makeRecord/PKT_LOG_FMT compose it",
-           "annotation texts that themselves contain '<', '*' or '#'", "payloads longer than 48 bytes (rejected by COMMAND_REGEX)"]
+           "hint texts containing '*'/'#' and error texts containing '#' (they would be a different annotation)", "payloads longer than 48 bytes (rejected by COMMAND_REGEX)"]
 STUBS = ["log line = asctime(26) + ' ' + rssi + ' ' + frame + [' < ' hint] + [' * ' err] + [' # ' comment] (from logger.py)", "lru_cache of pkt_addrs/id_to_address bypassed for symbolic address text",
          "TextIOWrapper subclass yielding the symbolic line"]
 ASSUMPTIONS = []
@@ -226,9 +226,10 @@ def h_cli(ctx, n, form):
 
 
 def _annotation(ctx, name, k):
+    """hint: anything but '*' and '#'; error text: anything but '#'; comment: anything (it is the tail)"""
     import symx
 
-    return symx.sym_printable(ctx, name, k, exclude="<*#") if k else ""
+    return symx.sym_printable(ctx, name, k, exclude={"hint": "*#", "err": "#"}.get(name, "")) if k else ""
 
 
 def h_annot(ctx, n, kh, ke, kc, via):
@@ -342,10 +343,12 @@ def queries(tier, seed):
     for n in ((1, 2, 8, 24, 48) if thorough else (1, 24)):
         for form in ("1", "2same", "2", "3ac", "3c", "1+seq", "2+seq", "3ac+seq"):
             qs.append(Query(f"cli[n={n}|{form}]", lambda c, a=(n, form): h_cli(c, *a), {"h": "cli", "n": n, "form": form}, group="cli", max_secs=300, weight=2))
-    K = 6 if thorough else 4
+    K = 6 if thorough else 3
     for via in ("file", "port", "dict"):
-        for kh, ke, kc in ((0, 0, 0), (0, 0, K), (K, 0, 0), (0, K, 0), (2, 0, 2), (2, 2, 2)):
-            qs.append(Query(f"annot[{via}|h{kh}e{ke}c{kc}]", lambda c, a=(2, kh, ke, kc, via): h_annot(c, *a), {"h": "annot", "n": 2, "kh": kh, "ke": ke, "kc": kc, "via": via}, group="annot", max_secs=600, max_paths=100_000, weight=5 + kh + ke + kc))
+        shapes_ = ((0, 0, 0), (0, 0, K), (K, 0, 0), (0, K, 0), (2, 0, 2), (2, 2, 2)) if thorough else (((0, 0, 0), (0, 0, K), (K, 0, 0), (0, K, 0), (1, 1, 1)) if via == "file" else ((0, 0, K),))
+        for kh, ke, kc in shapes_:
+            qs.append(Query(f"annot[{via}|h{kh}e{ke}c{kc}]", lambda c, a=(2, kh, ke, kc, via): h_annot(c, *a), {"h": "annot", "n": 2, "kh": kh, "ke": ke, "kc": kc, "via": via}, group="annot", max_secs=600, max_paths=100_000, weight=5 + kh + ke + kc,
+                            split_depth=6))
     for n in ((1, 8, 48) if thorough else (1, 8)):
         for kc in (0, 3):
             qs.append(Query(f"log[n={n}|c{kc}]", lambda c, a=(n, kc): h_log(c, *a), {"h": "log", "n": n, "kc": kc}, group="log", max_secs=600, max_paths=100_000, weight=6))
@@ -473,7 +476,7 @@ def replay(item):
         if str(cmd) != long_form:
             bad.append(f"prints {str(cmd)!r}, long form is {long_form!r}")
     elif h in ("annot", "log"):
-        f = _cfields(cex, prm["n"], 0, *((" I", "---") if h == "annot" else ("RP", "sym")))
+        f = _cfields(cex, prm["n"], 0, False, *((" I", "---") if h == "annot" else ("RP", "sym")))
         frame = _frame(f)
         rssi = cex.get("rssi", "045")
         if h == "annot":
